@@ -1,6 +1,6 @@
 from props import cfg
 
-CFG = cfg('C02', extract='Ex_Sig', driver='sig',
+CFG = cfg('C02', refine=['Refine_sig'], extract='Ex_Sig', driver='sig',
           rule='(a) every signature PGPy makes over the grid keys x hashes x signature types (0x00,0x01,0x02,0x40,0x10-0x13,0x16,0x1F,0x18,'
                '0x19 embedded,0x20,0x28,0x30) x option sets is exported, split by an independent packet splitter, parsed by the extracted model, '
                'its hash input recomputed by the extracted RFC transcription from exported octets only and verified with `cryptography` on the '
